@@ -1,7 +1,7 @@
 #!/bin/bash
 # tools/seedtest.sh <patch.diff> <Cxx> [tier]  -- run a check against a scratch copy of /repo with a patch applied
 # (scratch copy under /tmp, removed afterwards; /repo itself is not touched)
-patch="$1"; prop="$2"; tier="${3:-quick}"
+patch="$(realpath "$1")"; prop="$2"; tier="${3:-quick}"
 d=$(mktemp -d /tmp/pv-seed-XXXXXX)
 cp -r /repo/Pyro5 "$d/"; mkdir -p "$d/.g"; 
 ( cd "$d" && git init -q . && git apply --unsafe-paths "$patch" ) || { echo "patch failed"; rm -rf "$d"; exit 9; }
